@@ -192,6 +192,88 @@ func Run(r *report.Run) int {
 		reg.Close()
 		env.Remove(base)
 	}
+	// Part 3: collisions. When an id's ideal slot is taken the writer probes other slots of the block; the
+	// record must still land in exactly ONE aligned 62-byte slot (never straddling two, never the CRC area),
+	// also when every slot after the ideal one is taken and the probe has to wrap around.
+	for _, sIdeal := range []int{0, 1, 2, 40, 64, 65} {
+		base := env.Scratch("c24col")
+		reg, err := regx.Open(base, "tbl", 1, true)
+		if err != nil {
+			r.Broken("open registry: %v", err)
+			break
+		}
+		written := map[sop.UUID]sop.Handle{}
+		add := func(slot int, salt uint32) bool {
+			h := randHandle(rnd)
+			h.LogicalID = regx.MakeID(1, 0, slot, salt)
+			h.WorkInProgressTimestamp, h.IsDeleted = 0, false // the normal committed state
+			if err := reg.Add(h); err != nil {
+				r.Broken("registry add failed: %v", err)
+				return false
+			}
+			written[h.LogicalID] = h
+			return true
+		}
+		ok := true
+		if sIdeal > 0 {
+			ok = add(0, 900) // a resident low slot that a misplaced write could clobber
+		}
+		for slot := sIdeal; slot < regx.HandlesPerBlock && ok; slot++ {
+			ok = add(slot, uint32(1000+slot))
+		}
+		if !ok {
+			break
+		}
+		files := regx.SegmentFiles(base, "tbl")
+		prev, _ := os.ReadFile(files[0])
+		for c := 0; c < 3 && ok; c++ { // three colliders with the same ideal slot
+			if !add(sIdeal, uint32(5000+c)) {
+				ok = false
+				break
+			}
+			cur, _ := os.ReadFile(files[0])
+			first, last := -1, -1
+			for i := 0; i < regx.BlockSize-4 && i < len(cur); i++ {
+				if cur[i] != prev[i] {
+					if first < 0 {
+						first = i
+					}
+					last = i
+				}
+			}
+			fp := fmt.Sprintf("collision:ideal=%d:collider=%d", sIdeal, c)
+			r.Eval(fp, true)
+			if first < 0 {
+				// block full: the record went to another segment, nothing to check in this block
+				prev = cur
+				continue
+			}
+			if first/regx.SlotSize != last/regx.SlotSize {
+				r.Violation("C24:layout:collision-write-straddles-slots", map[string]any{"ideal_slot": sIdeal, "collider": c, "first_changed_byte": first, "last_changed_byte": last})
+			}
+			prev = cur
+		}
+		// every record ever written must sit in exactly one aligned slot and decode back unchanged
+		slots, _ := regx.ReadAll(base, "tbl")
+		found := map[sop.UUID]int{}
+		for _, sl := range slots {
+			if w, okk := written[sl.Handle.LogicalID]; okk {
+				found[sl.Handle.LogicalID]++
+				if w != sl.Handle {
+					r.Violation("C24:layout:collision-record-changed-on-disk", map[string]any{"ideal_slot": sIdeal, "written": w, "on_disk": sl.Handle, "slot": sl.Slot})
+				}
+			} else {
+				r.Violation("C24:layout:collision-slot-holds-unwritten-record", map[string]any{"ideal_slot": sIdeal, "slot": sl.Slot, "on_disk": sl.Handle})
+			}
+		}
+		for id := range written {
+			if found[id] != 1 {
+				r.Violation("C24:layout:collision-record-not-in-exactly-one-slot", map[string]any{"ideal_slot": sIdeal, "id": id.String(), "aligned_slots_holding_it": found[id]})
+			}
+		}
+		reg.Close()
+		env.Remove(base)
+	}
 	_ = minCRCStart
 	r.Set("max_observed_slot_end", maxSlotEnd)
 	r.Set("observed_block_geometry", fmt.Sprintf("%d slots x %d bytes + 4 CRC bytes = %d", regx.HandlesPerBlock, regx.SlotSize, regx.HandlesPerBlock*regx.SlotSize+4))
@@ -202,7 +284,7 @@ func Run(r *report.Run) int {
 	return r.Finish(rule, assumptions, 10)
 }
 
-const rule = "codec: seeded random handles over all flag combinations and int32/int64 extremes, fingerprint = (flags, version class, timestamp class); layout: one Add and one UpdateNoLocks per (modulus, block, slot) on a real registry file, raw file diffed before/after; fingerprint = (mod, block, slot, phase); every case is non-trivial (it reaches the encoder or the block writer)"
+const rule = "codec: seeded random handles over all flag combinations and int32/int64 extremes, fingerprint = (flags, version class, timestamp class); layout: one Add and one UpdateNoLocks per (modulus, block, slot) on a real registry file, raw file diffed before/after; fingerprint = (mod, block, slot, phase); collisions: ideal slot s in {0,1,2,40,64,65} with every slot from s to 65 taken, three colliders each: the bytes changed by each write must lie inside ONE aligned slot and every record written must be found in exactly one aligned slot, unchanged; every case is non-trivial (it reaches the encoder or the block writer)"
 
 var assumptions = []string{"registry files on ext4 with O_DIRECT", "in-memory L2 cache (fresh per registry instance)", "layout observed through the public fs.NewRegistry API, raw bytes read with os.ReadFile"}
 
